@@ -25,7 +25,7 @@ RULE = ('base files from vlib.model.gen_file; corruption kinds x API x ownership
 ASSUMPTIONS = ['Linux /proc/self/fd is authoritative for open descriptors', 'the harness closes all files it opens itself (with-blocks)']
 REQUIRED = ['big_file_calls', 'suspended_iterators_across_close', 'defragment_calls', 'caller_index_streams_checked', 'writer_reuse_blocks', 'api_calls', 'api_raised', 'fd_scans', 'library_open_events', 'after_close_ops', 'caller_streams_checked', 'writer_sessions',
             'index_opened_by_library', 'double_close']
-N = {'quick': 40, 'thorough': 2500}
+N = {'quick': 40, 'thorough': 1000}
 
 CORRUPTIONS = ['none', 'bad-tag-first', 'bad-tag-later', 'lead-in-cut', 'metadata-cut', 'unknown-type', 'dimension-2', 'absurd-string-length',
                'same-on-unseen', 'type-change', 'random-metadata-byte', 'garbage']
